@@ -394,6 +394,12 @@ pub fn gen_graph(rng: &mut Rng, o: &GenOpts) -> Graph {
             let i = if rng.chance(1, 2) { 0 } else { rng.usize_below(props.len() + 1) };
             props.insert(i, filler);
         }
+        // an eventually-property exactly one machine word of positions after another one
+        if rng.chance(1, 2) {
+            if let Some(i) = (0..props.len().saturating_sub(64)).find(|i| props[*i].kind == Kind::Eventually) {
+                props[i + 64] = PropSpec { kind: Kind::Eventually, bits: gen_bits(rng, n) };
+            }
+        }
     }
     if o.undiscoverable {
         let p = if rng.chance(1, 2) {
